@@ -1,5 +1,6 @@
 from __future__ import annotations
 
+import math
 from typing import Any, ClassVar
 
 from attr import define
@@ -61,10 +62,14 @@ class FloatProperty(PropertyProtocol):
         if isinstance(value, str):
             try:
                 parsed = float(value)
-                return Value(python_code=str(parsed), raw_value=value)
             except ValueError:
                 return PropertyError(f"Invalid float value: {value}")
+            if not math.isfinite(parsed):
+                return PropertyError(f"Invalid float value: {value}")
+            return Value(python_code=str(parsed), raw_value=value)
         if isinstance(value, float):
+            if not math.isfinite(value):
+                return PropertyError(f"Invalid float value: {value}")
             return Value(python_code=str(value), raw_value=value)
         if isinstance(value, int) and not isinstance(value, bool):
             return Value(python_code=str(float(value)), raw_value=value)
